@@ -46,6 +46,7 @@ type Model struct {
 	tmp          string
 	registry     map[string]*store // name -> store currently registered (in-memory stores stay registered with 0 handles)
 	disk         map[string]*store // url -> persisted on-disk store
+	foreign      map[string]bool   // url -> the directory holds a file that is not rosmar's (so it outlives the bucket)
 	handles      []*handle
 	gen          int
 	nprobe       int
@@ -59,7 +60,7 @@ type Model struct {
 var scnSerial atomic.Uint64
 
 func NewModel(tmp string, report func(kind, msg string), cell func(string)) *Model {
-	return &Model{prefix: fmt.Sprintf("lf%d_%d_", os.Getpid(), scnSerial.Add(1)), tmp: tmp, registry: map[string]*store{}, disk: map[string]*store{}, Report: report, Cell: cell}
+	return &Model{prefix: fmt.Sprintf("lf%d_%d_", os.Getpid(), scnSerial.Add(1)), tmp: tmp, registry: map[string]*store{}, disk: map[string]*store{}, foreign: map[string]bool{}, Report: report, Cell: cell}
 }
 
 func (m *Model) name(i int) string { return m.prefix + string(rune('A'+i)) }
@@ -100,6 +101,7 @@ func (m *Model) Open(ni, ui int, mode rosmar.OpenMode) {
 	reg := m.registry[name]
 	// expectation
 	wantOK, why := true, ""
+	either := false // the statement does not pin this case
 	var target *store
 	switch {
 	case reg != nil:
@@ -121,7 +123,10 @@ func (m *Model) Open(ni, ui int, mode rosmar.OpenMode) {
 		case mode == rosmar.CreateNew && persisted != nil:
 			wantOK, why = false, "CreateNew on an on-disk bucket whose directory exists"
 		case mode == rosmar.ReOpenExisting && persisted == nil:
+			// (also when the directory is there but holds no database: a directory is not a bucket)
 			wantOK, why = false, "ReOpenExisting on an on-disk bucket that does not exist"
+		case mode == rosmar.CreateNew && m.foreign[url]:
+			either = true // no bucket, but the directory exists: rosmar refuses, and the statement does not say
 		default:
 			target = persisted
 		}
@@ -141,11 +146,16 @@ func (m *Model) Open(ni, ui int, mode rosmar.OpenMode) {
 		state = fmt.Sprintf("registered(%s,handles=%d)", ifs(reg.disk, "disk", "mem"), min(m.openCount(reg), 2))
 	} else if disk && m.disk[url] != nil {
 		state = "persisted"
+	} else if disk && m.foreign[url] {
+		state = "directory-without-bucket"
 	}
 	m.Cell(fmt.Sprintf("open|%s|%s|%s|%s", modeName(mode), ifs(disk, "disk", "mem"), state, ifs(err == nil, "ok", "refused")))
 	if err != nil && strings.HasPrefix(err.Error(), "panic") {
 		m.Report("open.panic", fmt.Sprintf("OpenBucket(%s) panicked: %v", modeName(mode), err))
 		return
+	}
+	if either {
+		wantOK = err == nil
 	}
 	if (err == nil) != wantOK {
 		if wantOK {
@@ -276,6 +286,19 @@ func (m *Model) CloseAndDelete(h *handle) {
 	if s.disk && m.disk[s.url] == s {
 		delete(m.disk, s.url)
 	}
+}
+
+// Foreign puts a file that is not rosmar's into an on-disk bucket's directory (creating the directory if need be):
+// from then on the directory outlives the bucket, CloseAndDelete reports that it could not remove it, and an
+// existing directory is no longer the same thing as an existing bucket.
+func (m *Model) Foreign(ni, ui int) {
+	url := m.url(ni, ui)
+	m.step(fmt.Sprintf("ForeignFile(%c,u%d)", 'A'+ni, ui))
+	m.Cell(fmt.Sprintf("foreign-file|%s", ifs(m.disk[url] != nil, "bucket-exists", "no-bucket")))
+	dir := dirOf(url)
+	_ = os.MkdirAll(dir, 0700)
+	_ = os.WriteFile(filepath.Join(dir, "notes.txt"), []byte("not rosmar's"), 0600)
+	m.foreign[url] = true
 }
 
 // Write stores a fresh value through an open handle.
@@ -452,7 +475,11 @@ func ifs(c bool, a, b string) string {
 
 // RandomStep performs one PRNG-chosen lifecycle step.
 func (m *Model) RandomStep(r *rng.R) {
-	switch x := r.Intn(20); {
+	switch x := r.Intn(21); {
+	case x == 20:
+		if r.Chance(1, 3) {
+			m.Foreign(r.Intn(2), 1+r.Intn(2))
+		}
 	case x < 7 || len(m.handles) == 0:
 		m.Open(r.Intn(2), r.Intn(3), rosmar.OpenMode(r.Intn(3)))
 	case x < 11:
@@ -484,7 +511,7 @@ func (m *Model) RandomStep(r *rng.R) {
 }
 
 // NSteps is the number of distinct step kinds for the bounded-exhaustive enumeration.
-const NSteps = 12
+const NSteps = 13
 
 // EnumStep performs step kind k (0..NSteps-1) deterministically; handle choices come from sel.
 func (m *Model) EnumStep(k int, sel int) {
@@ -539,6 +566,8 @@ func (m *Model) EnumStep(k int, sel int) {
 		}
 	case 11: // a second name in memory
 		m.Open(1, 0, rosmar.CreateOrOpen)
+	case 12: // a foreign file in the on-disk bucket's directory
+		m.Foreign(0, 1)
 	}
 }
 
